@@ -10,5 +10,5 @@ CONSTANTS
   InitChoices <- T_Init
   RelocChoices = {TRUE, FALSE}
 CONSTRAINT Emit
-INVARIANTS InvRelocation InvRemoteSpawn
+INVARIANTS InvRelocation InvRemoteSpawn InvRemoteChild
 CHECK_DEADLOCK FALSE
